@@ -19,19 +19,20 @@ import (
 
 // Engine holds the loaded program and the contracts.
 type Engine struct {
-	prog      *ssa.Program
-	pkg       *ssa.Package
-	tpkg      *types.Package
-	fset      *token.FileSet
-	cf        *ContractFile
-	repo      string
-	funcs     map[string]*ssa.Function // by contract name: "isReady", "RunPlan$1", "(*PlanInput).Validate"
-	typeMem   map[string]types.Type
-	wsMemo    map[*ssa.Function]map[string]bool
-	initFacts []initFact
-	initDone  bool
-	roMemo    map[*ssa.Global]bool
-	findings  []Finding
+	localsBase map[string][]localDecl // baseline/locals.json: variable lists of the functions under contract
+	prog       *ssa.Program
+	pkg        *ssa.Package
+	tpkg       *types.Package
+	fset       *token.FileSet
+	cf         *ContractFile
+	repo       string
+	funcs      map[string]*ssa.Function // by contract name: "isReady", "RunPlan$1", "(*PlanInput).Validate"
+	typeMem    map[string]types.Type
+	wsMemo     map[*ssa.Function]map[string]bool
+	initFacts  []initFact
+	initDone   bool
+	roMemo     map[*ssa.Global]bool
+	findings   []Finding
 }
 
 type initFact struct {
@@ -66,6 +67,7 @@ func loadEngine(repo string, contractPath string) (*Engine, error) {
 		return nil, err
 	}
 	e.cf = cf
+	e.localsBase = loadLocalsBaseline()
 	return e, nil
 }
 
